@@ -1,10 +1,162 @@
-(* C15 — rate and concurrency limits (statements; proofs in Proofs/LimiterProofs.v). *)
-From Coq Require Import ZArith List.
-From EC Require Import Lib.Outcome Lib.Obs Model.Limiter.
+(* C15 — Rate and concurrency limits are enforced on every RPC stream.
+   Statements only; proofs are in Proofs/LimiterProofs.v, the model in Model/Limiter.v.
+
+   Quantifier of the property: every sequence of acquire / cancel / release operations with
+   arbitrary permit counts, hold times and clock advances.  Here: every label list [ls] over
+   LTick d | LBegin p | LWait | LGrant | LCancel id | LDrop id run from the initial state
+   (labels that are not enabled are skipped, so [ls] ranges over all interleavings of callers,
+   of the runtime's scheduling of the lock holder, of cancellations, drops and clock advances),
+   every configuration with burst <= usize::MAX and refresh > 0. *)
+From Coq Require Import ZArith List Sorted.
+From EC Require Import Lib.Outcome Lib.Obs Model.Limiter Proofs.LimiterProofs.
 Import ListNotations.
 Open Scope Z_scope.
 
-Example C15_nonvacuous :
-  run_case (2, 10, 0, [OAcq 2; ODrop 0%nat; OAcq 1; OAdv 10; OAcq 1; OAdv 10]) =
-  OL [OZ 0; OL [OL [OZ 0; OZ 0]; OL [OZ 1; OZ 10]; OL [OZ 2; OZ 20]]; OL [OZ 2; OZ 1; OZ 1]; OZ 20].
+(* limiter_inv: 0 <= reserved <= permits <= burst, refresh_ticks within [0, ticks(now)],
+   reserved = sum of the live Permit objects, and no arithmetic panic (usize `+=`/`-=`/`-`
+   with overflow checks on; the usize / i128 / Duration saturations are part of the model). *)
+Theorem C15_limiter_inv : forall c ls, cfg_ok c ->
+  (forall p, exec c (init c) ls <> Panic p) /\
+  (forall s, exec c (init c) ls = Ok s ->
+     0 <= rs (st s) <= pm (st s) /\ pm (st s) <= burst c /\
+     0 <= rt (st s) <= ticks c (now s) /\ rs (st s) = sum_p (held s)).
+Proof. exact limiter_inv. Qed.
+Print Assumptions C15_limiter_inv.
+
+Theorem C15_refresh_ticks_monotone : forall c ls1 ls2 s1 s2, cfg_ok c ->
+  exec c (init c) ls1 = Ok s1 -> exec c s1 ls2 = Ok s2 -> rt (st s1) <= rt (st s2).
+Proof. exact refresh_ticks_monotone. Qed.
+Print Assumptions C15_refresh_ticks_monotone.
+
+(* window_bound: in any closed time window [t1, t2] the permits granted (sum over the acquire
+   calls that returned in the window) are at most burst + (t2 - t1) / refresh + 1. *)
+Theorem C15_window_bound : forall c ls s t1 t2, cfg_ok c -> exec c (init c) ls = Ok s ->
+  start c <= t1 <= t2 ->
+  sum_window (grants s) t1 t2 <= burst c + (t2 - t1) / refresh c + 1.
+Proof. exact window_bound. Qed.
+Print Assumptions C15_window_bound.
+
+(* the same bound for the permits consumed (Permit::drop) in a window: this is the form the
+   RPC layer needs, because a stream's OPEN is sent while its permit is held and the permit is
+   dropped at that instant. *)
+Theorem C15_consume_window_bound : forall c ls s t1 t2, cfg_ok c -> exec c (init c) ls = Ok s ->
+  start c <= t1 <= t2 ->
+  sum_window (drops s) t1 t2 <= burst c + (t2 - t1) / refresh c + 1.
+Proof. exact consume_window_bound. Qed.
+Print Assumptions C15_consume_window_bound.
+
+(* fifo_order (given the fair acquire mutex, H-ATOM): in the grant log, newest first, every older
+   entry belongs to a call that entered acquire() earlier and was granted no later; a call still
+   waiting entered later than every call granted so far. *)
+Theorem C15_fifo_order : forall c ls s, cfg_ok c -> exec c (init c) ls = Ok s ->
+  StronglySorted grant_order (grants s).
+Proof. exact fifo_order. Qed.
+Print Assumptions C15_fifo_order.
+
+Theorem C15_fifo_no_overtaking : forall c ls s g j q, cfg_ok c -> exec c (init c) ls = Ok s ->
+  In g (grants s) -> In (j, q) (queue s) -> (gid g < j)%nat.
+Proof. exact fifo_no_overtaking. Qed.
+Print Assumptions C15_fifo_no_overtaking.
+
+(* cancel_consumes_nothing: cancelling a wait at any point before the grant changes neither the
+   limiter state nor the permits held / granted / consumed, and the cancelled call is never
+   granted afterwards. *)
+Theorem C15_cancel_consumes_nothing : forall c ls s id s', cfg_ok c ->
+  exec c (init c) ls = Ok s -> step c s (LCancel id) = Ok s' ->
+  st s' = st s /\ held s' = held s /\ grants s' = grants s /\ drops s' = drops s /\ now s' = now s /\
+  (find_id id (queue s) <> None ->
+   forall ls' s'', exec c s' ls' = Ok s'' -> ~ In id (map gid (grants s''))).
+Proof. exact cancel_consumes_nothing. Qed.
+Print Assumptions C15_cancel_consumes_nothing.
+
+(* The deterministic scripts of the correspondence check are runs of the step relation
+   (so every theorem above applies to what the harness executes), and their settle phase
+   ends in a state where no internal step is enabled. *)
+Theorem C15_scripts_are_runs : forall c os s, run_ops c s os = exec c s (script_labels c s os).
+Proof. exact run_ops_exec. Qed.
+Print Assumptions C15_scripts_are_runs.
+
+Theorem C15_settle_quiescent : forall c s s', settle c s = Ok s' -> quiescent c s'.
+Proof. exact settle_quiescent. Qed.
+Print Assumptions C15_settle_quiescent.
+
+Theorem C15_script_bounds : forall c os s t1 t2, cfg_ok c -> run_ops c (init c) os = Ok s ->
+  start c <= t1 <= t2 ->
+  sum_window (grants s) t1 t2 <= burst c + (t2 - t1) / refresh c + 1 /\
+  sum_window (drops s) t1 t2 <= burst c + (t2 - t1) / refresh c + 1.
+Proof. exact script_window_bound. Qed.
+Print Assumptions C15_script_bounds.
+
+(* The saturating deadline computation (i128 saturating_mul, duration_or_max) is the exact
+   product while the clock is in range. *)
+Theorem C15_deadline_exact : forall c need t, 0 < refresh c -> t - start c < nanos_max ->
+  (deadline_reached c need t = true <-> need <= 0 \/ refresh c * need <= t - start c).
+Proof.
+  intros c need t Hr Ht. split; [apply deadline_reached_spec; assumption|apply deadline_reached_complete; assumption].
+Qed.
+Print Assumptions C15_deadline_exact.
+
+(* rpc_rate_bound: a StreamQueue with n reusable streams sharing one limiter (one permit per
+   OPEN, the permit dropped when the OPEN has been sent).  For every sequence of stream events
+   (the remote side and the application decide when a stream gets to acquire, to open, to close,
+   or is aborted) the OPENs in any window are within the rate and the simultaneously open
+   transient streams (= calls rpc::Server::serve has in flight) are at most n. *)
+Theorem C15_rpc_rate_bound : forall c n ls s t1 t2, cfg_ok c -> rexec c (rinit c n) ls = Ok s ->
+  start c <= t1 <= t2 ->
+  count_window (opens s) t1 t2 <= burst c + (t2 - t1) / refresh c + 1 /\ (n_open s <= n)%nat.
+Proof. exact rpc_rate_bound. Qed.
+Print Assumptions C15_rpc_rate_bound.
+
+Theorem C15_rpc_no_panic : forall c n ls p, cfg_ok c -> rexec c (rinit c n) ls <> Panic p.
+Proof. exact rpc_no_panic. Qed.
+Print Assumptions C15_rpc_no_panic.
+
+(* Full statement of C15.  The limiter half is proved at this strength by the theorems above;
+   the RPC half is proved for the StreamQueue model [rexec], whose tie to
+   mux/reusable_stream.rs + rpc/mod.rs is by reading only (no differential check), and n <= INFLIGHT
+   is C14 open_streams_bounded.  Kept as a definition; its proof is the conjunction below. *)
+Definition C15_full : Prop :=
+  forall c, cfg_ok c ->
+    (forall ls s t1 t2, exec c (init c) ls = Ok s -> start c <= t1 <= t2 ->
+       sum_window (grants s) t1 t2 <= burst c + (t2 - t1) / refresh c + 1) /\
+    (forall ls s, exec c (init c) ls = Ok s -> StronglySorted grant_order (grants s)) /\
+    (forall ls s id s', exec c (init c) ls = Ok s -> step c s (LCancel id) = Ok s' ->
+       st s' = st s /\ held s' = held s /\ grants s' = grants s /\ drops s' = drops s) /\
+    (forall n ls s t1 t2, rexec c (rinit c n) ls = Ok s -> start c <= t1 <= t2 ->
+       count_window (opens s) t1 t2 <= burst c + (t2 - t1) / refresh c + 1 /\ (n_open s <= n)%nat).
+
+Theorem C15_full_model : C15_full.
+Proof.
+  intros c Hc. split; [|split; [|split]].
+  - intros ls s t1 t2 H Ht. eapply window_bound; eassumption.
+  - intros ls s H. eapply fifo_order; eassumption.
+  - intros ls s id s' H Hs. destruct (cancel_consumes_nothing c ls s id s' Hc H Hs) as (A & B & C & D & _).
+    repeat split; assumption.
+  - intros n ls s t1 t2 H Ht. eapply rpc_rate_bound; eassumption.
+Qed.
+Print Assumptions C15_full_model.
+
+(* Non-vacuity and tightness: burst 1, refresh 10 ns.  Three acquire(1) calls are granted at
+   9, 10 and 20 ns: 3 = 1 + (20 - 9) / 10 + 1 permits in the window [9, 20]. *)
+Example C15_bound_is_tight :
+  let c := {| burst := 1; refresh := 10; start := 0 |} in
+  exists s, run_ops c (init c)
+              [OAdv 9; OAcq 1; ODrop 0%nat; OAcq 1; OAdv 1; ODrop 1%nat; OAcq 1; OAdv 10] = Ok s /\
+            map (fun g => (gid g, gtime g)) (rev (grants s)) = [(0%nat, 9); (1%nat, 10); (2%nat, 20)] /\
+            sum_window (grants s) 9 20 = 3 /\ burst c + (20 - 9) / refresh c + 1 = 3.
+Proof. eexists. split; [vm_compute; reflexivity|]. vm_compute. repeat split; reflexivity. Qed.
+
+(* a cancelled sleeper delays nobody's permits: the waiter behind it is served as if alone *)
+Example C15_cancel_example :
+  run_case (2, 10, 3, [OAcq 2; ODrop 0%nat; OAcq 2; OAcq 1; OAdv 5; OCancel 1%nat; OAdv 4; OAdv 1; OAdv 100]) =
+  OL [OZ 0; OL [OL [OZ 0; OZ 3]; OL [OZ 2; OZ 13]]; OL [OZ 2; OZ 3; OZ 1]; OZ 113].
 Proof. vm_compute. reflexivity. Qed.
+
+(* the StreamQueue model is not vacuous either: two streams, burst 1 *)
+Example C15_rpc_example :
+  let c := {| burst := 1; refresh := 10; start := 0 |} in
+  exists s, rexec c (rinit c 2)
+      [RAcquire 0; RAcquire 1; RLim LWait; RLim LGrant; ROpen 0; RLim LWait; RLim LGrant;
+       RLim (LTick 10); RLim LGrant; ROpen 1] = Ok s /\
+    opens s = [(1%nat, 10); (0%nat, 0)] /\ n_open s = 2%nat.
+Proof. eexists. split; [vm_compute; reflexivity|]. split; reflexivity. Qed.
